@@ -78,7 +78,10 @@ def norm(s):
 
 # which translated definitions each property's check validates (and whose bridge theorems are among its obligations)
 TR_PREFIXES = {
-    'C01': ['ber.encode_object_identifier_subidentifier', 'ber.decode_object_identifier_subidentifier', 'compiler.lowest_set_bit'],
+    'C01': ['ber.encode_object_identifier_subidentifier', 'ber.decode_object_identifier_subidentifier', 'compiler.lowest_set_bit',
+            'per.Encoder', 'per.Decoder', 'oer.Encoder', 'oer.Decoder'],
+    'C08': ['per.Decoder', 'oer.Decoder'],
+    'C16': ['per.Decoder', 'oer.Decoder'],
     'C03': ['ber.encode_length_definite', 'ber.encode_tag'],
     'C05': ['per.'],
     'C06': ['oer.'],
@@ -172,6 +175,13 @@ def oer_encoder_op(rng, e):
 
 
 def oer_decoder_op(rng, d):
+    m, args = _oer_decoder_op(rng, d)
+    if m == 'read_bits':
+        args = [8 * ((args[0] + 7) // 8)]      # the OER codec reads whole octets with read_bits (read_bytes); other widths are outside its domain
+    return m, args
+
+
+def _oer_decoder_op(rng, d):
     m = rng.choice(['align', 'number_of_read_bits', 'skip_bits', 'peek_bit', 'read_bit', 'read_bits', 'read_byte', 'read_bytes',
                     'read_non_negative_binary_integer', 'read_length_determinant', 'read_integer', 'read_unsigned_integer', 'read_tag'])
     if m in ('skip_bits', 'read_non_negative_binary_integer'):
@@ -320,11 +330,453 @@ def run(sink, prefixes, seed, n_fn=300, n_seq=60, seq_len=25):
     sink.count('translated.mismatches', bad)
 
 
+# ---------------------------------------------------------------------------------------------------------------------
+# FAILING-INPUT SEARCH at the level of the translated helpers.  Independent re-statements (written from X.690 / X.691 / X.696,
+# not from the code) of what each helper must compute; when a bridge theorem no longer checks, or simply on every run, the
+# Python function of the tree under test is compared with them on boundary sweeps far beyond what a whole-codec test can
+# reach (lengths of 2^32 octets, tag numbers of 2^70, the 4096-bit chunk threshold of the bit buffer ...).  A difference is a
+# concrete failing input of the helper and is reported as a violation of the properties whose statement covers that helper.
+
+def _b128(n):
+    out = [n & 0x7f]
+    n >>= 7
+    while n:
+        out.append(0x80 | (n & 0x7f))
+        n >>= 7
+    return out[::-1]
+
+
+def _minbytes(n):
+    return list(n.to_bytes(max(1, (n.bit_length() + 7) // 8), 'big')) if n else []
+
+
+def ref_ber_length(n):
+    if n <= 127:
+        return [n]
+    b = _minbytes(n)
+    return [0x80 | len(b)] + b
+
+
+def ref_tag(limit):
+    def f(number, flags):
+        if number < limit:
+            return [flags | number]
+        return [flags | limit] + _b128(number)
+    return f
+
+
+def ref_pow2(n):
+    if n == 0:
+        return 0
+    bl, p = n.bit_length(), 1
+    while p < bl:
+        p *= 2
+    return p
+
+
+def ref_lendet_len(n):
+    return 1 if n < 128 else 1 + max(1, (n.bit_length() + 7) // 8)
+
+
+REFERENCES = {
+    'ber.encode_length_definite': (ref_ber_length, lambda n: n < 256 ** 127),
+    'ber.encode_tag': (ref_tag(31), None),
+    'oer.encode_tag': (ref_tag(63), None),
+    'ber.encode_object_identifier_subidentifier': (_b128, None),
+    'per.integer_as_number_of_bits': (lambda n: n.bit_length(), None),
+    'per.integer_as_number_of_bits_power_of_two': (ref_pow2, None),
+    'per.size_as_number_of_bytes': (lambda n: max(1, (n.bit_length() + 7) // 8), None),
+    'per.to_byte_array': (lambda num, nbits: list((num % (256 ** ((nbits + 7) // 8))).to_bytes((nbits + 7) // 8, 'big')), None),
+    'c_oer.get_length_determinant_length': (ref_lendet_len, lambda n: n < 2 ** 32),     # the generated C counts lengths in uint32_t
+    'c_uper.does_bits_match_range': (lambda nb, lo, hi: 2 ** nb == hi - lo + 1, None),
+    'compiler.lowest_set_bit': (lambda n: (n & -n).bit_length() - 1 if n else 0, None),
+}
+SWEEP = sorted(set([0, 1, 2] + [2 ** k + d for k in list(range(1, 80)) + [127, 128, 255, 256, 511, 512, 1000, 1015, 1016, 1017, 1023, 1024] for d in (-1, 0, 1)]
+                   + [256 ** k + d for k in (1, 2, 3, 4, 5, 8, 16, 126) for d in (-1, 0, 1)] + [1677725, 1677726, 16777215, 16777216]))
+KNOWN_DEVIATION = {
+    # the recorded finding C10-lendet-typo: a 4-octet length determinant is predicted for lengths that need 5 ... and vice versa
+    'c_oer.get_length_determinant_length': lambda args: 1677726 <= args[0] < 16777216,
+}
+
+
+def canon_out(v):
+    if isinstance(v, (bytes, bytearray)):
+        return list(v)
+    if isinstance(v, tuple):
+        return [canon_out(x) for x in v]
+    return v
+
+
+def reference_search(sink, prefixes, seed, n_rand=400):
+    """Python helper of the tree under test vs the independent reference; returns the number of deviations found"""
+    rng = random.Random(seed * 104729 + 7)
+    found = 0
+    for key, (ref, dom) in sorted(REFERENCES.items()):
+        if not any(key.startswith(p) for p in prefixes):
+            continue
+        mod, fname = key.split('.', 1)
+        try:
+            f = getattr(importlib.import_module(MODULES[mod]), fname)
+        except Exception:
+            continue
+        gen = FUNCTION_DOMAINS[key]
+        arity = len(gen(rng))
+        cases = [gen(rng) for _ in range(n_rand)]
+        if arity == 1:
+            cases += [[n] for n in SWEEP]
+        elif key != 'c_uper.does_bits_match_range':              # (its first argument is an exponent)
+            cases += [[n] + gen(rng)[1:] for n in SWEEP]
+        for args in cases:
+            if dom is not None and not dom(*args):
+                continue
+            try:
+                got = canon_out(f(*args))
+            except Exception as e:
+                got = 'raised ' + type(e).__name__
+            want = canon_out(ref(*args))
+            sink.count('reference.' + key)
+            if got != want:
+                if key in KNOWN_DEVIATION and KNOWN_DEVIATION[key](args):
+                    sink.known_finding('C10-lendet-typo', 'get_length_determinant_length(%d) = %r, the run-time length determinant has %r octets' % (args[0], got, want))
+                    continue
+                found += 1
+                if found <= 3:
+                    sink.violation('helper %s deviates from what the standard prescribes for it' % key,
+                                   {'function': key, 'arguments': [str(a) for a in args], 'returned': repr(got)[:300], 'prescribed': repr(want)[:300]})
+        # OID subidentifier round trip through the decoder helper
+        if key == 'ber.encode_object_identifier_subidentifier':
+            dec = getattr(importlib.import_module(MODULES['ber']), 'decode_object_identifier_subidentifier')
+            for n in SWEEP + [nat(rng) for _ in range(200)]:
+                e = f(n)
+                rest = octets(rng, rng.choice([0, 1, 3]))
+                try:
+                    got = dec(bytes(e) + rest, 0)
+                except Exception as ex:
+                    got = 'raised ' + type(ex).__name__
+                sink.count('reference.ber.decode_object_identifier_subidentifier')
+                if got != (n, len(e)):
+                    found += 1
+                    sink.violation('OBJECT IDENTIFIER subidentifier does not round-trip through encode/decode_object_identifier_subidentifier',
+                                   {'subidentifier': str(n), 'encoded': bytes(e).hex(), 'decoded': repr(got)})
+                    break
+    return found
+
+
+# --- bit buffer references --------------------------------------------------------------------------------------------
+
+def _bits(v, n):
+    return format(v, '0%db' % n) if n else ''
+
+
+def _lendet_bits(n):
+    if n < 128:
+        return _bits(n, 8), n
+    if n < 16384:
+        return _bits(0x8000 | n, 16), n
+    k = min(n // 16384, 4)
+    return _bits(0xc0 | k, 8), 16384 * k
+
+
+def _twos(i):
+    k = (i.bit_length() // 8 + 1) if i >= 0 else ((-i - 1).bit_length() // 8 + 1)
+    return k, _bits(i % (1 << (8 * k)), 8 * k)
+
+
+def per_encoder_bits(e):
+    return ''.join(_bits(v, n) for v, n in e.chunks) + _bits(e.value, e.number_of_bits)
+
+
+def per_encoder_expected(before_bits, m, args, other_bits=None):
+    """bits that method m must append to a buffer holding before_bits; (appended bits, return value) or the exception name"""
+    if m == 'append_bit':
+        return str(args[0]), None
+    if m == 'append_non_negative_binary_integer':
+        return _bits(args[0], args[1]), None
+    if m == 'append_bits':
+        return ''.join(_bits(b, 8) for b in args[0])[:args[1]], None
+    if m == 'append_bytes':
+        return ''.join(_bits(b, 8) for b in args[0]), None
+    if m == 'append_length_determinant':
+        return _lendet_bits(args[0])
+    if m == 'append_normally_small_non_negative_whole_number':
+        v = args[0]
+        if v < 64:
+            return _bits(v, 7), None
+        k = (v.bit_length() + 7) // 8
+        return '1' + _lendet_bits(k)[0] + _bits(v, 8 * k), None
+    if m == 'append_normally_small_length':
+        v = args[0]
+        if v <= 64:
+            return _bits(v - 1, 7), None
+        if v <= 127:
+            return _bits(0x100 | v, 9), None
+        return 'NotImplementedError'
+    if m in ('align', 'align_always'):
+        return '0' * (-len(before_bits) % 8), None
+    if m == 'append_constrained_whole_number':
+        value, lo, hi, nb = args
+        rng_ = hi - lo + 1
+        pad = '0' * (-len(before_bits) % 8)
+        if rng_ <= 255:
+            return _bits(value - lo, nb), None
+        if rng_ == 256:
+            return pad + _bits(value - lo, 8), None
+        if rng_ <= 65536:
+            return pad + _bits(value - lo, 16), None
+        return pad + _bits(value - lo, nb), None
+    if m == 'append_unconstrained_whole_number':
+        k, body = _twos(args[0])
+        return _lendet_bits(k)[0] + body, None
+    if m == '__iadd__':
+        return other_bits, None
+    raise KeyError(m)
+
+
+def encoder_reference_search(sink, seed, n_seq=40, seq_len=30):
+    per = importlib.import_module(MODULES['per'])
+    rng = random.Random(seed * 15485863 + 3)
+    found = 0
+    for s in range(n_seq):
+        e = per.Encoder()
+        hist = []
+        for step in range(seq_len):
+            m, args = encoder_op(rng, e)
+            if m == 'number_of_bytes':
+                sink.count('reference.per.Encoder.number_of_bytes')
+                if e.number_of_bytes() != (len(per_encoder_bits(e)) + 7) // 8:
+                    found += 1
+                    sink.violation('per.Encoder.number_of_bytes is not the number of octets of the bits written', {'history': hist[-6:], 'returned': e.number_of_bytes(), 'bits_written': len(per_encoder_bits(e))})
+                continue
+            before = per_encoder_bits(e)
+            other_bits = None
+            try:
+                if m == '__iadd__':
+                    o = per.Encoder()
+                    for _ in range(rng.randint(0, 4)):
+                        om, oargs = encoder_op(rng, o)
+                        if om not in ('__iadd__', 'number_of_bytes'):
+                            try:
+                                getattr(o, om)(*oargs)
+                            except NotImplementedError:
+                                pass
+                    other_bits = per_encoder_bits(o)
+                    e += o
+                    ret = None
+                else:
+                    ret = getattr(e, m)(*args)
+                got = (per_encoder_bits(e), ret)
+            except Exception as ex:
+                got = type(ex).__name__
+            exp = per_encoder_expected(before, m, args, other_bits)
+            want = exp if isinstance(exp, str) else (before + exp[0], exp[1])
+            hist.append('%s(%s)' % (m, ', '.join(repr(a)[:40] for a in args)))
+            sink.count('reference.per.Encoder.' + m)
+            if got != want:
+                found += 1
+                if found <= 3:
+                    def short(x):
+                        return x if isinstance(x, str) and len(x) < 30 else (('...' + x[0][-80:], x[1]) if not isinstance(x, str) else x)
+                    sink.violation('per.Encoder.%s does not append the bits X.691 prescribes (bit buffer primitive)' % m,
+                                   {'history_of_calls_on_one_Encoder': hist[-8:], 'bits_before': len(before), 'got_tail_and_return': repr(short(got))[:300], 'prescribed_tail_and_return': repr(short(want))[:300]})
+                break
+            if isinstance(got, str):
+                break
+    return found
+
+
 def run_for_property(ctx):
     prefixes = TR_PREFIXES.get(ctx.prop)
     if not prefixes:
         return
     quick = ctx.tier != 'thorough'
     run(ctx, prefixes, ctx.seed, n_fn=300 if quick else 3000, n_seq=60 if quick else 600)
+    reference_search(ctx, prefixes, ctx.seed, n_rand=400 if quick else 4000)
+    if any(p == 'per.' or p.startswith('per.Encoder') for p in prefixes):
+        encoder_reference_search(ctx, ctx.seed, n_seq=40 if quick else 400)
+    which = [k for k in ('per.Decoder', 'oer.Decoder') if any(k.startswith(p) or p.startswith(k) for p in prefixes)]
+    if which:
+        decoder_reference_search(ctx, ctx.seed, which, n_seq=60 if quick else 600)
     ctx.assumptions.append('translator harness/py2lean.py (Python subset -> Lean) and its declared argument domains: validated on this run by executing '
                            'the translated definitions against the Python functions of the tree under test (histogram keys translated.*)')
+
+
+# --- bit reader references ------------------------------------------------------------------------------------------------
+
+class RefReader:
+    """what the decoder primitives must do, stated over the string of remaining bits (X.691 10.5-10.9, X.696 8.6, 10)"""
+
+    def __init__(self, bits, total):
+        self.bits, self.total = bits, total
+
+    def take(self, n):
+        if n > len(self.bits):
+            raise EOFError()
+        out, self.bits = self.bits[:n], self.bits[n:]
+        return out
+
+    def nat(self, n):
+        b = self.take(n)
+        return int(b, 2) if b else 0
+
+    def pos(self):
+        return self.total - len(self.bits)
+
+    def align(self):
+        self.bits = self.bits[(-self.pos()) % 8:] if (-self.pos()) % 8 <= len(self.bits) else self.bits
+
+    def octets(self, n):
+        b = self.take(n)
+        b += '0' * (-len(b) % 8)
+        return bytes(int(b[i:i + 8], 2) for i in range(0, len(b), 8))
+
+    # PER
+    def per_lendet(self):
+        v = self.nat(8)
+        if v < 128:
+            return v
+        if v < 192:
+            return ((v & 0x7f) << 8) | self.nat(8)
+        if v in (0xc1, 0xc2, 0xc3, 0xc4):
+            return 16384 * (v & 7)
+        raise ValueError('DecodeError')
+
+    def per(self, m, args):
+        if m in ('align', 'align_always'):
+            self.align()
+            return None
+        if m == 'number_of_read_bits':
+            return self.pos()
+        if m == 'skip_bits':
+            self.take(args[0])
+            return None
+        if m == 'read_bit':
+            return self.nat(1)
+        if m == 'read_non_negative_binary_integer':
+            return self.nat(args[0])
+        if m == 'read_bits':
+            return self.octets(args[0])
+        if m == 'read_bytes':
+            return self.octets(8 * args[0])
+        if m == 'read_length_determinant':
+            return self.per_lendet()
+        if m == 'read_normally_small_non_negative_whole_number':
+            if not self.nat(1):
+                return self.nat(6)
+            return self.nat(8 * self.per_lendet())
+        if m == 'read_normally_small_length':
+            if not self.nat(1):
+                return self.nat(6) + 1
+            if not self.nat(1):
+                return self.nat(7)
+            raise NotImplementedError()
+        if m == 'read_constrained_whole_number':
+            lo, hi, nb = args
+            r = hi - lo + 1
+            if r <= 255:
+                return lo + self.nat(nb)
+            self.align()
+            return lo + self.nat(8 if r == 256 else 16 if r <= 65536 else nb)
+        if m == 'read_unconstrained_whole_number':
+            k = self.per_lendet()
+            v = self.nat(8 * k)
+            if k == 0:
+                raise ArithmeticError()          # the code computes 1 << -1: a foreign ValueError (outside C08 / C16's scope: not a prefix of a valid encoding)
+            return v - (1 << (8 * k)) if v >> (8 * k - 1) else v
+        raise KeyError(m)
+
+    # OER
+    def oer_lendet(self):
+        v = self.nat(8)
+        return self.nat(8 * (v & 0x7f)) if v & 0x80 else v
+
+    def oer(self, m, args):
+        if m == 'align':
+            self.bits = self.bits[len(self.bits) % 8:]
+            return None
+        if m == 'number_of_read_bits':
+            return self.pos()
+        if m == 'skip_bits':
+            self.take(args[0])
+            return None
+        if m == 'peek_bit':
+            if not self.bits:
+                raise EOFError()
+            return int(self.bits[0])
+        if m == 'read_bit':
+            return self.nat(1)
+        if m == 'read_non_negative_binary_integer':
+            return self.nat(args[0])
+        if m == 'read_byte':
+            return self.nat(8)
+        if m == 'read_bits':
+            return self.octets(args[0])
+        if m == 'read_bytes':
+            return self.octets(8 * args[0])
+        if m == 'read_length_determinant':
+            return self.oer_lendet()
+        if m == 'read_unsigned_integer':
+            return self.nat(8 * self.oer_lendet())
+        if m == 'read_integer':
+            k = self.oer_lendet()
+            v = self.nat(8 * k)
+            if k == 0:
+                raise ArithmeticError()
+            return v - (1 << (8 * k)) if v >> (8 * k - 1) else v
+        if m == 'read_tag':
+            b = self.nat(8)
+            out = [b]
+            if b & 0x3f == 0x3f:
+                while True:
+                    b = self.nat(8)
+                    out.append(b)
+                    if not b & 0x80:
+                        break
+            return bytes(out)
+        raise KeyError(m)
+
+
+def decoder_reference_search(sink, seed, which, n_seq=60, seq_len=25):
+    """real per.Decoder / oer.Decoder objects vs RefReader on random call sequences (result, error class, remaining bits)"""
+    rng = random.Random(seed * 32452843 + 11)
+    found = 0
+    for cls_key, gen in (('per.Decoder', per_decoder_op), ('oer.Decoder', oer_decoder_op)):
+        if cls_key not in which:
+            continue
+        mod = importlib.import_module(MODULES[cls_key.split('.')[0]])
+        cls = getattr(mod, 'Decoder')
+        for sq in range(n_seq):
+            data = octets(rng, rng.choice([0, 1, 2, 3, 5, 9, 20, 140]))
+            obj = cls(data)
+            ref = RefReader(''.join(format(b, '08b') for b in data), 8 * len(data))
+            hist = []
+            for step in range(seq_len):
+                m, args = gen(rng, obj)
+                hist.append('%s(%s)' % (m, ', '.join(repr(a)[:30] for a in args)))
+                try:
+                    want = ('ok', getattr(ref, cls_key.split('.')[0])(m, args))
+                except EOFError:
+                    want = ('err', 'OutOfDataError')
+                except ValueError:
+                    want = ('err', 'DecodeError')
+                except NotImplementedError:
+                    want = ('err', 'NotImplementedError')
+                except ArithmeticError:
+                    want = ('err', 'ValueError')
+                try:
+                    got = ('ok', getattr(obj, m)(*args))
+                except Exception as ex:
+                    got = ('err', type(ex).__name__)
+                sink.count('reference.%s.%s' % (cls_key, m))
+                same = got == want or (got[0] == want[0] == 'ok' and bytes(got[1]) == bytes(want[1]) if isinstance(want[1], bytes) and isinstance(got[1], (bytes, bytearray)) else got == want)
+                if same and got[0] == 'ok' and obj.number_of_bits != len(ref.bits):
+                    same = False
+                if not same:
+                    found += 1
+                    if found <= 3:
+                        sink.violation('%s.%s does not read what the encoding rules prescribe (bit reader primitive)' % (cls_key, m),
+                                       {'input_octets': data.hex(), 'history_of_calls_on_one_Decoder': hist[-8:], 'returned': repr(got)[:200], 'bits_left': obj.number_of_bits,
+                                        'prescribed': repr(want)[:200], 'prescribed_bits_left': len(ref.bits)})
+                    break
+                if got[0] == 'err':
+                    break
+    return found
